@@ -51,6 +51,10 @@ func c04ReturnProgram(path []string, iter int, withValue bool) string {
 }
 
 func c04Judge(c *Ctx, cs *Case) {
+	if cs.Gen == "repl-after-call-errors" {
+		c20Judge(c, cs)
+		return
+	}
 	c.Begin(cs)
 	if cs.Mode == "cli" {
 		m := RunModel(cs.Src, "", false, 0)
@@ -282,6 +286,13 @@ func c04Run(c *Ctx) {
 			}
 		}
 	}
+	// 4d. interactive mode: after a line that called with the wrong count or called a non-function, later lines still call
+	for _, bad := range []string{Fun("two", "a, b", " "+Ret("a")+" ") + " two(1);", Var("x", "5") + " x(1);", `"s"();`, Fun("z", "", "") + " z(1, 2);"} {
+		lines := []string{Fun("add", "a, b", " "+Ret("a + b")+" ") + " " + Print("add(3, 5)"), bad, Fun("add", "a, b", " "+Ret("a + b")+" ") + " " + Print("add(3, 5)"), Fun("fib", "n", " "+If("n < 2", "{ "+Ret("n")+" }")+" "+Ret("fib(n - 1) + fib(n - 2)")+" ") + " fib(10);", bad, Fun("mk", "", " "+Var("n", "0")+" "+Fun("up", "", " n = n + 1; "+Ret("n")+" ")+" "+Ret("up")+" ") + " " + Var("u", "mk()") + " u(); u();"}
+		if c.Mine() {
+			c04Judge(c, &Case{Gen: "repl-after-call-errors", Src: strings.Join(lines, "\n"), X: map[string]string{"final_newline": "1", "all_self": "1"}})
+		}
+	}
 	// 5. random compositions
 	r := c.Rand("random")
 	n := c.N(10000, 600000)
@@ -338,6 +349,8 @@ func c04Handwritten() []string {
 			Fun("mk", "\u09b8\u09ae\u09df", " "+Fun("up", "\u09ac\u09dc", " \u09b8\u09ae\u09df = \u09b8\u09ae\u09df + \u09ac\u09dc; "+Ret("\u09b8\u09ae\u09df")+" ")+" "+Ret("up")+" "), Var("u1", "mk(1)"), Var("u2", "mk(100)"), Print("u1(1)"), Print("u2(1)"), Print("u1(5)")),
 		// a return without a value yields nil whatever earlier calls returned
 		Lines(Fun("sq", "x", " "+Ret("x * x")+" "), Fun("note", "m", " "+If(`m == ""`, "{ "+Ret("")+" }")+" "+Ret("m")+" "), Print("sq(7)"), Print(`note("")`), Print(`note("x")`), Print(`note("")`), Fun("none", "", " "+Ret("")+" "), Print("[sq(2), none(), sq(3), none()]")),
+		// the operand of ফেরত may be any expression, an assignment included
+		Lines(Fun("counter", "", " "+Var("n", "0")+" "+Fun("next", "", " "+Ret("n = n + 1")+" ")+" "+Ret("next")+" "), Var("c1", "counter()"), Print("c1()"), Print("c1()"), Var("memo", "[0, 0, 0]"), Fun("sq", "k", " "+Ret("memo[k] = k * k")+" "), Print("sq(2)"), Print("memo"), Var("state", "{last: 0}"), Fun("rec", "v", " "+If("v > 5", "{ "+Ret("state.last = v")+" }")+" "+Ret("state.last = state.last + v")+" "), Print("rec(1)"), Print("rec(9)"), Print("state")),
 		// the operand of ফেরত may start on the following line or after a comment
 		Lines(Fun("fib", "n", " "+If("n < 2", "{ "+K["return"]+"\n n; }")+"\n"+K["return"]+"\n fib(n - 1) + fib(n - 2);\n"), Print("fib(10)"), Fun("pick", "xs, want", "\n"+For(Var("i", "0"), "i < "+BI("len", "xs"), "i = i + 1", "{ "+If("xs[i] == want", "{ "+K["return"]+" // found\n i; }")+" }")+"\n"+K["return"]+" /* none */\n -1;\n"), Print("pick([4, 5, 6], 5)"), Print("pick([4], 9)"),
 			Fun("cnt", "", " "+Var("n", "0")+" "+Fun("up", "", " n = n + 1; "+K["return"]+"\n\n n; ")+" "+K["return"]+"\n up; "), Var("u", "cnt()"), Print("u()"), Print("u()")),
@@ -373,7 +386,7 @@ func init() {
 		Run:         c04Run,
 		Judge:       c04Judge,
 		MustCount: func(c *Ctx) []string {
-			out := []string{"return_inside_while", "return_inside_for", "programs_with_3plus_closures", "recursion_depth_100plus", "fault:Arity", "fault:NotCallable", "gen:closure-interleavings", "gen:function-name-rebinding", "gen:long-call-histories", "cli_runs"}
+			out := []string{"return_inside_while", "return_inside_for", "programs_with_3plus_closures", "recursion_depth_100plus", "fault:Arity", "fault:NotCallable", "gen:closure-interleavings", "gen:function-name-rebinding", "gen:repl-after-call-errors", "gen:long-call-histories", "cli_runs"}
 			return out
 		},
 	})
